@@ -15,6 +15,11 @@ def gen_heap(rng, n, falsy=True):
         heap.append([a, rng.randint(lo, 3), rng.choice(STR_ALPHA if falsy else STR_ALPHA[1:]), items,
                      rng.choice([None, 0, 1, 2] if falsy else [1, 2]), (rng.random() < 0.5) if falsy else True,
                      [rng.randint(lo, 3), rng.randint(lo, 3)], {'o': rng.randrange(n)}, a >= 2])
+    # (drawn after everything else, so that the rest of a generated case is what it was before this field existed)
+    for o in heap:
+        # a collection of collections: groups (empty, overlapping, repeated) next to scalars
+        o.append([rng.choice([[rng.randint(lo, 3) for _ in range(rng.choice([0, 1, 2, 2, 3]))], rng.randint(lo, 3)])
+                  if rng.random() < 0.8 else [rng.randint(lo, 3)] * 2 for _ in range(rng.choice([0, 1, 2, 3]))])
     return heap
 
 
@@ -278,7 +283,17 @@ def gen_case_sub(rng, tier):
         outer = rng.choice([d[0] for d in c['doms'] if d[0] != i])
         lhs = ['map', ['f', F[rng.choice('ab')]], ['var', outer]]
         sub = ['subq', i, ci, ['map', ['f', F[rng.choice('ab')]], ['var', i]]]
-        cmp_ = ['cmp', rng.choice(OPS), lhs, sub] if rng.random() < 0.6 else ['cmp', rng.choice(OPS), sub, lhs]
+        the_operand = rng.random() < 0.4
+        if the_operand:
+            # the(...) as the operand, CORRELATED with the enclosing query: the one object that is the peer of the outer variable
+            # (i ranges over every object, so there is exactly one solution for every binding of the outer variable, which the left
+            # operand has bound by the time the sub-query is evaluated)
+            c['doms'][-1] = [i, list(range(nobj))]
+            ci = ['cmp', '==', ['var', i], ['map', ['f', F['peer']], ['var', outer]]]
+            if rng.random() < 0.3:
+                ci = ['cmp', '==', ['map', ['f', F['peer']], ['var', outer]], ['var', i]]
+            sub = ['subq', i, ci, ['map', ['f', F[rng.choice('ab')]], ['var', i]], 'the']
+        cmp_ = ['cmp', rng.choice(OPS), lhs, sub] if the_operand or rng.random() < 0.6 else ['cmp', rng.choice(OPS), sub, lhs]
         c['cond'] = cmp_ if rng.random() < 0.4 else ['and', c['cond'], cmp_, 'fn'] if rng.random() < 0.6 else ['and', cmp_, c['cond'], 'fn']
     used = cond_keys(c['cond'], set())
     from qcase import term_keys
@@ -294,22 +309,23 @@ def gen_case_sub(rng, tier):
 def gen_case_flat(rng, tier):
     """parent variable 1, flatten node 5 over parent.items / parent.pair / a scalar attribute"""
     heap, doms = _base(rng, 1, dom_max=4)
-    inner_field = rng.choice(['items', 'items', 'items', 'pair', 'a'])
+    inner_field = rng.choice(['items', 'items', 'items', 'pair', 'a', 'groups'])
     ft = ['map', ['f', F[inner_field]], ['var', 1]]
     flat = ['flat', 5, ft]
+    ops = ['==', '!='] if inner_field == 'groups' else OPS        # (a tuple and an int cannot be ordered: Python raises)
     sel = rng.choice([[['var', 1], flat], [flat, ['var', 1]], [flat], [['var', 1], flat]])
     r = rng.random()
     if r < 0.35:
         cond = None
     elif r < 0.6:
-        cond = ['cmp', rng.choice(OPS), flat, ['lit', rng.choice(INT_ALPHA)]]
+        cond = ['cmp', rng.choice(ops), flat, ['lit', rng.choice(INT_ALPHA)]]
     elif r < 0.75:
-        cond = ['cmp', rng.choice(OPS), flat, ['map', ['f', F[rng.choice('ab')]], ['var', 1]]]
+        cond = ['cmp', rng.choice(ops), flat, ['map', ['f', F[rng.choice('ab')]], ['var', 1]]]
     elif r < 0.85:
         cond = ['and', ['cmp', rng.choice(OPS), ['map', ['f', F['a']], ['var', 1]], ['lit', rng.choice(INT_ALPHA)]],
-                ['cmp', rng.choice(OPS), flat, ['lit', rng.choice(INT_ALPHA)]], 'fn']
+                ['cmp', rng.choice(ops), flat, ['lit', rng.choice(INT_ALPHA)]], 'fn']
     elif r < 0.93:
-        cond = ['or', ['cmp', rng.choice(OPS), flat, ['lit', rng.choice(INT_ALPHA)]],
+        cond = ['or', ['cmp', rng.choice(ops), flat, ['lit', rng.choice(INT_ALPHA)]],
                 ['cmp', '==', flat, ['map', ['f', F['b']], ['var', 1]]], 'fn']
     else:
         cond = ['in', flat, ['map', ['f', F['pair']], ['var', 1]]]
@@ -320,8 +336,13 @@ def gen_case_flat(rng, tier):
 def gen_case_concat(rng, tier):
     """concatenate(x.items) (node 6, inner variable 1) alone, or tested for (non-)membership by an outer variable 2"""
     heap, doms = _base(rng, 2, dom_max=4)
-    inner_field = rng.choice(['items', 'items', 'pair', 'a'])
+    inner_field = rng.choice(['items', 'items', 'pair', 'a', 'groups', 'groups'])
     ct = ['map', ['f', F[inner_field]], ['var', 1]]
+    flat_inside = inner_field == 'groups' and rng.random() < 0.5
+    cb = ['concat', 6, 1, ct]
+    if flat_inside:
+        cb = ['concatflat', 6, 1, ct]
+        ct = ['flat', 5, ct]                                   # concatenate(flatten(x.groups)): the elements of every group
     conc = ['concat', 6, ct]
     if rng.random() < 0.15:
         doms[0][1] = []                                        # no parent at all
@@ -330,13 +351,13 @@ def gen_case_concat(rng, tier):
             heap[i][3] = []                                    # every inner collection empty
     r = rng.random()
     if r < 0.35:
-        return dict(heap=heap, doms=[doms[0]], binders=[['concat', 6, 1, ct]], sel=[conc], cond=None, form='entity',
+        return dict(heap=heap, doms=[doms[0]], binders=[cb], sel=[conc], cond=None, form='entity',
                     list_items=rng.random() < 0.6)
     item = ['map', ['f', F[rng.choice('ab')]], ['var', 2]]
     cond = ['in', item, conc] if rng.random() < 0.5 else ['contains', conc, item]
     if rng.random() < 0.4:
         cond = ['not', cond, 'fn']
-    return dict(heap=heap, doms=doms, binders=[['concat', 6, 1, ct], ['var', 2]], sel=[['var', 2]], cond=cond,
+    return dict(heap=heap, doms=doms, binders=[cb, ['var', 2]], sel=[['var', 2]], cond=cond,
                 form='entity' if rng.random() < 0.6 else 'set_of', list_items=rng.random() < 0.6)
 
 
@@ -416,9 +437,68 @@ def rewrite_cond(rng, c):
     return c
 
 
+def gen_case_conj_under_disj(rng, tier=None):
+    """a conjunction whose two sides speak of DIFFERENT variables (or whose right side recurs under several bindings of the left
+    one) as the first branch of a disjunction / under a negated disjunction: the conjunction is asked for its false rows too, and
+    its right-side result cache is read by every later binding of the left side.  0/1-valued attributes, all variables selected."""
+    nobj = rng.randint(4, 7)
+    heap = gen_heap(rng, nobj, True)
+    for o in heap:
+        o[0], o[1] = rng.randint(0, 1), rng.randint(0, 1)
+        o[8] = o[0] >= 2
+    nv = rng.choice([2, 2, 3])
+    keys = list(range(1, nv + 1))
+    doms = [[k, rng.sample(range(nobj), rng.randint(2, 4))] for k in keys]
+    fa = lambda k: ['map', ['f', F[rng.choice('ab')]], ['var', k]]
+    lit = lambda: ['lit', rng.randint(0, 1)]
+    ops = ['==', '!=', '<', '>=']
+    one = lambda k: ['cmp', rng.choice(ops), fa(k), lit()]
+    two = lambda j, k: ['cmp', rng.choice(ops), fa(j), fa(k)]
+    x, y = keys[0], keys[1]
+    if nv == 2:
+        conj = ['and', one(x), one(y), rng.choice(['fn', 'op'])]
+        other = rng.choice([one(x), one(y), two(x, y)])
+    else:
+        z = keys[2]
+        conj = rng.choice([['and', one(x), two(y, z), 'fn'], ['and', ['and', two(x, z), two(y, z), 'fn'], two(x, y), 'fn'],
+                           ['and', two(x, y), one(z), 'op']])
+        other = rng.choice([one(x), one(z), two(x, z)])
+    r = rng.random()
+    if r < 0.6:
+        cond = ['or', conj, other, rng.choice(['fn', 'op'])]
+    elif r < 0.8:
+        cond = ['not', ['or', ['not', conj, 'fn'], other, 'fn'], 'fn']
+    else:
+        cond = ['or', ['not', ['or', ['not', conj[1], 'fn'], ['not', conj[2], 'fn'], 'fn'], 'fn'], other, 'fn']
+    used = cond_keys(cond, set())
+    return dict(heap=heap, doms=[d for d in doms if d[0] in used], binders=[['var', k] for k in keys if k in used],
+                sel=[['var', k] for k in keys if k in used], cond=cond, form='set_of')
+
+
 def gen_pair(rng, tier):
     nv = rng.choice([1, 2, 2, 3])
     orig = gen_case(rng, nvars=nv, falsy=True, neg=True, maxdepth=3, select=rng.choice(['all', 'some']), dom_max=3)
+    if rng.random() < 0.4:
+        # a conjunction joining two variables as one side of a disjunction, only ONE of the two selected, the other one needed by
+        # the other side of the disjunction (rows that are false for the conjunction must be kept apart per value of the
+        # unselected variable); 0/1-valued attributes so that consecutive rows alternate between true and false
+        nobj = rng.randint(4, 7)
+        heap = gen_heap(rng, nobj, True)
+        for o in heap:
+            o[0], o[1] = rng.randint(0, 1), rng.randint(0, 1)
+            o[8] = o[0] >= 2
+        x, z = sorted(rng.sample([1, 2, 3], 2)) if rng.random() < 0.85 else rng.sample([1, 2, 3], 2)
+        fa = lambda k: ['map', ['f', F[rng.choice('ab')]], ['var', k]]
+        lit = lambda: ['lit', rng.randint(0, 1)]
+        ops = ['==', '!=', '<', '>=']
+        join = ['cmp', rng.choice(ops), fa(z), fa(x)] if rng.random() < 0.9 else ['cmp', rng.choice(ops), fa(x), fa(z)]
+        second = ['cmp', rng.choice(ops), fa(x), lit()] if rng.random() < 0.9 else ['cmp', rng.choice(ops), fa(rng.choice([x, z])), fa(z)]
+        conj = ['and', join, second, rng.choice(['fn', 'op'])] if rng.random() < 0.9 else ['and', second, join, 'fn']
+        other = ['cmp', rng.choice(ops), fa(z), lit()]
+        orig = dict(heap=heap, doms=[[k, rng.sample(range(nobj), rng.randint(2, 4))] for k in sorted((x, z))],
+                    binders=[['var', k] for k in sorted((x, z))], sel=[['var', x]],
+                    cond=['or', conj, other, rng.choice(['fn', 'op'])] if rng.random() < 0.8 else ['or', other, conj, 'fn'],
+                    form=rng.choice(['entity', 'set_of']))
     var = dict(orig)
     var['cond'] = rewrite_cond(rng, orig['cond']) if orig['cond'] is not None else None
     if var['cond'] is not None and var['cond'][0] == 'and' and rng.random() < 0.2:
